@@ -1,5 +1,8 @@
 import AspireModel.Model.Wire
 import AspireModel.Model.Weights
+import AspireModel.Model.Rows
+import AspireModel.Model.Tempering
+import AspireModel.Model.Schedule
 /-
   Pure part of the line-protocol driver: one request line in, one reply line out.
   `Main.lean` only does the IO loop.  First token selects the width (`f64` / `f32`),
@@ -7,8 +10,17 @@ import AspireModel.Model.Weights
 -/
 open Wire Model
 
+/-- float-specific helpers the generic model takes as parameters -/
+class FloatLike (α : Type) where
+  isNan : α → Bool
+  negInf : α
+  roundNat : α → Nat
+
+instance : FloatLike Float := ⟨Float.isNaN, -(1.0/0.0), fun x => (Float.round x).toUInt64.toNat⟩
+instance : FloatLike Float32 := ⟨Float32.isNaN, -(1.0/0.0), fun x => (Float32.round x).toUInt64.toNat⟩
+
 namespace Driver
-variable {α : Type} [Num α] [DecidableLT α] [DecidableLE α] [Scalar α]
+variable {α : Type} [Num α] [DecidableLT α] [DecidableLE α] [Scalar α] [FloatLike α]
 
 def opWeights : P String := do
   let ll : List α ← scs; let lp : List α ← scs; let lq : List α ← scs
@@ -24,6 +36,167 @@ def opScaled : P String := do let xs : List α ← scs; pure (outL (scaledWeight
 def opReject : P String := do
   let lw : List α ← scs; let lu : List α ← scs; pure (outBs (rejectionKeep lw lu))
 
+/-! ### sample-set operations (C16) -/
+
+abbrev SS (α : Type) := SampleSet (List α) α
+
+/-- what the `Samples` constructor computes (`__post_init__` → `compute_weights`) -/
+def evFn (S : SS α) : SS α :=
+  match S.ll, S.lp, S.lq with
+  | some ll, some lp, some lq =>
+    let o := computeWeights ll lp lq
+    { S with logW := some o.logW, weights := some o.weights, logZ := some o.logZ,
+             logZerr := some o.logEvidenceError, evidence := some o.evidence,
+             evidenceErr := some o.evidenceError, ess := some o.ess }
+  | _, _, _ => S
+
+def optCol : P (Option (List α)) := do
+  if (← bool) then pure (some (← scs)) else pure none
+def optS : P (Option α) := do
+  if (← bool) then pure (some (← sc)) else pure none
+
+def parseCls : P Cls := do
+  match (← tok) with
+  | "base" => pure .base | "samples" => pure .samples | "smc" => pure .smc
+  | t => throw s!"bad class {t}"
+
+def parseSet : P (SS α) := do
+  let cls ← parseCls
+  let n ← nat; let d ← nat
+  let flat : List α ← many sc (n * d)
+  let rec chunk (l : List α) (k : Nat) : List (List α) :=
+    match k with
+    | 0 => []
+    | k+1 => l.take d :: chunk (l.drop d) k
+  let x := chunk flat n
+  let ll ← optCol; let lp ← optCol; let lq ← optCol
+  let beta ← optS; let logZ ← optS; let logZerr ← optS
+  let S : SS α := { cls := cls, x := x, ll := ll, lp := lp, lq := lq, beta := beta, logZ := logZ, logZerr := logZerr }
+  pure (match cls with | .samples => (let T := evFn S; match S.ll, S.lp, S.lq with
+                                        | some _, some _, some _ => T
+                                        | _, _, _ => S) | _ => S)
+
+def outOptCol (c : Option (List α)) : String :=
+  match c with | none => "0" | some l => "1 " ++ outL l
+def outOptS (c : Option α) : String :=
+  match c with | none => "0" | some v => "1 " ++ outS v
+def clsName : Cls → String | .base => "base" | .samples => "samples" | .smc => "smc"
+
+def dumpSet (S : SS α) : String :=
+  " ".intercalate [clsName S.cls, toString S.x.length, outL S.x.flatten, outOptCol S.ll, outOptCol S.lp,
+    outOptCol S.lq, outOptCol S.logW, outOptCol S.weights, outOptS S.logZ, outOptS S.logZerr,
+    outOptS S.evidence, outOptS S.evidenceErr, outOptS S.ess, outOptS S.beta]
+
+def essSel (lw : List α) : α := essShifted lw
+
+partial def applyOps (S : SS α) : P (SS α) := do
+  match (← get) with
+  | [] => pure S
+  | _ =>
+    let op ← tok
+    match op with
+    | "sel" => let l ← listOf nat; applyOps (select essSel evFn l S)
+    | "slice" =>
+      let a ← nat; let b ← nat; let s ← nat
+      applyOps (select essSel evFn (Sel.slice a b s).toIdxs S)
+    | "mask" => let m ← listOf bool; applyOps (select essSel evFn (Sel.mask m).toIdxs S)
+    | "partcat" =>
+      let m ← listOf bool
+      let p1 := select essSel evFn (Sel.mask m).toIdxs S
+      let p2 := select essSel evFn (Sel.mask (m.map not)).toIdxs S
+      applyOps (concat S.cls evFn [p1, p2])
+    | "cat3" =>
+      let a ← nat; let b ← nat
+      let n := S.x.length
+      let p1 := select essSel evFn (Sel.slice 0 a 1).toIdxs S
+      let p2 := select essSel evFn (Sel.slice a b 1).toIdxs S
+      let p3 := select essSel evFn (Sel.slice b n 1).toIdxs S
+      applyOps (concat S.cls evFn [p1, p2, p3])
+    | "pickle" => applyOps (pickleRoundTrip S)
+    | "dict" => applyOps (dictRoundTrip evFn S)
+    | t => throw s!"bad rows op {t}"
+
+def opRows : P String := do
+  let S ← parseSet (α := α)
+  let T ← applyOps S
+  pure (dumpSet T)
+
+/-! ### tempering (C05, C08, C09) -/
+
+def opResample : P String := do
+  let β : α ← sc; let β' : α ← sc
+  let ll : List α ← scs; let lp : List α ← scs; let lq : List α ← scs
+  pure (outL (resampleP β β' ll lp lq))
+
+def opRatio : P String := do
+  let β : α ← sc; let β' : α ← sc
+  let ll : List α ← scs; let lp : List α ← scs; let lq : List α ← scs
+  let r := logEvidenceRatio β β' ll lp lq
+  let v := logEvidenceRatioVar β β' ll lp lq
+  pure (outS r ++ " " ++ outOptS v ++ " " ++ outS (essOf (logWeights β β' ll lp lq)))
+
+def opSmcTarget : P String := do
+  let β : α ← sc
+  let lq : List α ← scs; let ll : List α ← scs; let lp : List α ← scs; let j : List α ← scs
+  let rec go : List α → List α → List α → List α → List α
+    | q :: qs, l :: ls, p :: ps, jj :: js =>
+      smcTarget FloatLike.isNan FloatLike.negInf β q l p jj :: go qs ls ps js
+    | _, _, _, _ => []
+  pure (outL (go lq ll lp j))
+
+def opMcmcTarget : P String := do
+  let ll : List α ← scs; let lp : List α ← scs; let j : List α ← scs
+  let rec go : List α → List α → List α → List α
+    | l :: ls, p :: ps, jj :: js => mcmcTarget l p jj :: go ls ps js
+    | _, _, _ => []
+  pure (outL (go ll lp j))
+
+/-! ### schedule (C06, C07) -/
+
+def parseCfg : P (BetaCfg α) := do
+  let adaptive ← bool; let ams ← bool; let tol : α ← sc
+  let lo : α ← sc; let hi : α ← sc; let ramp ← bool; let rate : α ← sc
+  pure { adaptive := adaptive, adaptiveMinStep := ams, tol := tol, targetLo := lo, targetHi := hi,
+         ramp := ramp, rate := rate }
+
+def outBeta (r : Except BetaErr (α × α)) : String :=
+  match r with
+  | .ok (b, m) => "ok " ++ outS b ++ " " ++ outS m
+  | .error _ => "zerodiv"
+
+/-- `beta <cfg> β step minStep ll lp lq` : determine_beta on a population at temperature β -/
+def opBeta (pinned : Bool) : P String := do
+  let c ← parseCfg (α := α)
+  let β : α ← sc; let step : α ← sc; let minStep : α ← sc
+  let ll : List α ← scs; let lp : List α ← scs; let lq : List α ← scs
+  let eff := fun b => effAt β b ll lp lq
+  let r := if pinned then determineBetaPinned c eff 4000 β step minStep
+           else determineBeta c FloatLike.roundNat eff 4000 β step minStep
+  let tgt := currentTarget c β
+  let extra := match r with
+    | .ok (b, _) => outS (eff b) ++ " " ++ outS (eff (b + c.tol + c.tol))
+    | .error _ => "- -"
+  pure (outBeta r ++ " " ++ outS tgt ++ " " ++ extra)
+
+def opEff : P String := do
+  let β : α ← sc; let β' : α ← sc
+  let ll : List α ← scs; let lp : List α ← scs; let lq : List α ← scs
+  pure (outS (effAt β β' ll lp lq))
+
+/-- `fixed n` : the whole fixed schedule for `n_steps = n` (new rule and pinned rule) -/
+def opFixed : P String := do
+  let n ← nat
+  let step : α := 1 / (n : α)
+  let rec run (rule : α → α) (fuel : Nat) (β : α) (acc : List α) : List α :=
+    match fuel with
+    | 0 => acc.reverse
+    | f+1 =>
+      let b := rule β
+      if 1 ≤ b then (b :: acc).reverse else run rule f b (b :: acc)
+  let new := run (fun b => fixedNext FloatLike.roundNat b step) (2 * n + 5) 0 []
+  let old := run (fun b => fixedNextAccum b step) (2 * n + 5) 0 []
+  pure (outL new ++ " " ++ outL old)
+
 def dispatch (op : String) : P String :=
   match op with
   | "weights" => opWeights (α := α)
@@ -33,6 +206,15 @@ def dispatch (op : String) : P String :=
   | "relerr_old" => opRelErrOld (α := α)
   | "scaled" => opScaled (α := α)
   | "reject" => opReject (α := α)
+  | "rows" => opRows (α := α)
+  | "resample" => opResample (α := α)
+  | "ratio" => opRatio (α := α)
+  | "smc_target" => opSmcTarget (α := α)
+  | "mcmc_target" => opMcmcTarget (α := α)
+  | "beta" => opBeta (α := α) false
+  | "beta_pinned" => opBeta (α := α) true
+  | "eff" => opEff (α := α)
+  | "fixed" => opFixed (α := α)
   | _ => throw s!"unknown op {op}"
 
 end Driver
